@@ -54,6 +54,8 @@ def interleave(tape, fixed, movable):
 def build_pair(tape, opts, max_msgs=6, apis=("deferred", "delegate"),
                lazy_ok=False):
     """Two clients that share a code, each with a script of sends."""
+    if opts.get("_tier") == "thorough":
+        max_msgs = max(max_msgs, 12)
     w = MailboxWorld(tape, opts)
     mode = tape.pick(("alloc_set", "set_set", "alloc_input"), "codemode")
     api_a = tape.pick(apis, "api_a")
@@ -88,6 +90,8 @@ def short_op(op):
 
 
 def pick_faults(tape, w, kinds, max_budget=6):
+    if w.opts.get("_tier") == "thorough":
+        max_budget = max_budget * 2 + 2
     w.fault_kinds = tuple(k for k in kinds if tape.choose(4, "fk") != 0)
     w.fault_budget = tape.choose(max_budget + 1, "fbudget")
 
